@@ -107,7 +107,7 @@ def run(ctx):
     k = 1 if ctx.tier == "quick" else 6
     items = [dict(gen="corpus", count=0, modes=["plain", "metrics"], flow=True),
              dict(gen="g1", count=25 * k, modes=["plain"], flow=True), dict(gen="g2", count=25 * k, modes=["plain"], flow=True),
-             dict(gen="g3", count=25 * k, modes=["plain"], flow=True), dict(gen="g3", count=12 * k, modes=["plain"], flow=True, opts={"variant": "occ2"}), dict(gen="g3z", count=10 * k, modes=["plain"], flow=True), dict(gen="g4", count=30 * k, modes=["plain"], flow=True), dict(gen="g4b", count=40 * k, modes=["plain"], flow=True),
+             dict(gen="g3", count=25 * k, modes=["plain"], flow=True), dict(gen="g3", count=12 * k, modes=["plain"], flow=True, opts={"variant": "occ2"}), dict(gen="g3z", count=10 * k, modes=["plain"], flow=True), dict(gen="g3u", count=15 * k, modes=["plain"], flow=True), dict(gen="g3v", count=8 * k, modes=["plain"], flow=True), dict(gen="g4", count=30 * k, modes=["plain"], flow=True), dict(gen="g4b", count=40 * k, modes=["plain"], flow=True),
              dict(gen="g5", count=10 * k, modes=["plain"], flow=True)]
     if c06.has_g7():
         items.append(dict(gen="g7", count=25 * k, modes=["metrics"], flow=True))
